@@ -566,6 +566,18 @@ fn cff_deep_fields(out: &mut Vec<Field>, d: &[u8], rng: &mut Rng) {
         f(out, "CFF.charset.first", off + 1, 2, n);
         f(out, "CFF.charset.nLeft", off + 3, 1, n);
         f(out, "CFF.charset.second", off + 3, 2, n);
+        // the whole charset as one wide format 2 (or format 1) range: sums of first + nLeft and
+        // of nLeft + 1 that do not fit 16 bits
+        let (first, n_left) = [(2u16, 0xFFFFu16), (1, 0xFFFF), (0x8000, 0xFFFF), (0xFFFF, 0xFFFF), (1, 0xFFFE), (0x8000, 0x8000), (0xFFFF, 1)]
+            [rng.usize_below(7)];
+        if d.len() >= off + 5 {
+            let (fb, nb) = (first.to_be_bytes(), n_left.to_be_bytes());
+            if rng.pct(75) {
+                fw(out, "CFF.charset.format2Range", off, vec![2, fb[0], fb[1], nb[0], nb[1]], n);
+            } else {
+                fw(out, "CFF.charset.format1Range", off, vec![1, fb[0], fb[1], 0xFF], n);
+            }
+        }
     }
     if let Some(off) = find(16).and_then(|v| v.last().copied()).filter(|o| *o > 1) {
         let off = off as usize;
